@@ -477,6 +477,7 @@ func (a *agg) addBatch(b *Batch, br *BatchResult, keepSamples int) {
 		t.Selects += s.Selects
 		t.TimersFired += s.TimersFired
 		t.ForcedGCs += s.ForcedGCs
+		t.HotNaps += s.HotNaps
 		if s.MaxOpSteps > t.MaxOpSteps {
 			t.MaxOpSteps = s.MaxOpSteps
 		}
